@@ -20,3 +20,16 @@ Definition run_login_case (c : bool * bool * list ans) : V :=
     VL [enc_outcome o; vlist enc_event tr]
   end.
 Definition run_lev (c : list N * list N) : V := vnat (levenshtein (fst c) (snd c)).
+
+(** pxssh.prompt() (job pxssh-prompt): PROMPT as a regex of the executable engine, the calls (timeout is 0?), the transport events,
+    the state; per call [True/False/raises, result, pending, buffer, events left] *)
+From PV Require Import Base.PySeq Base.Rx Expect.Model Expect.Run Login.Prompt.
+Fixpoint run_prompts (P : rx) (calls : list bool) (s : st) (evs : list ev) : list V :=
+  match calls with
+  | [] => []
+  | t0 :: r =>
+      let '(pr, x, s', e') := prompt rx rx_search P t0 s evs in
+      VL [VI (match pr with PTrue => 1 | PFalse => 0 | PRaises _ => 2 end); enc_step (Some x, s', length e')] :: run_prompts P r s' e'
+  end.
+Definition run_prompt_case (c : rx * list bool * list ev * st) : V :=
+  match c with (P, calls, evs, s) => VL (run_prompts P calls s evs) end.
